@@ -56,9 +56,13 @@ macro_rules! flavour_impl {
             }
 
             fn dump(&self) -> Value {
+                self.dump_nodes(&self.nodes.iter().collect::<Vec<_>>())
+            }
+
+            fn dump_nodes(&self, which: &[&Node<K, N, E>]) -> Value {
                 let keys: Vec<K> = self.nodes.iter().map(|n| *n.key()).collect();
                 let mut out = vec![];
-                for n in &self.nodes {
+                for n in which {
                     let mut self_ok = true;
                     let ic: Vec<bool> = keys.iter().map(|k| n.is_connected(k)).collect();
                     sel!($kind, {
@@ -96,6 +100,70 @@ macro_rules! flavour_impl {
                 Value::Array(out)
             }
 
+            fn exists_now(&self, lst: &str, owner: K, other: K, val: E) -> bool {
+                let n = self.nodes.iter().find(|n| *n.key() == owner).unwrap();
+                sel!($kind, {
+                    match lst {
+                        "out" => n.iter_out().any(|Edge(_, v, e)| *v.key() == other && e == val),
+                        "in" => n.iter_in().any(|Edge(u, _, e)| *u.key() == other && e == val),
+                        x => panic!("list {}", x),
+                    }
+                }, {
+                    n.iter().any(|Edge(_, v, e)| *v.key() == other && e == val)
+                })
+            }
+
+            fn run_script(&self, steps: &Value) -> Value {
+                let mut out = vec![];
+                for st in steps.as_array().unwrap() {
+                    out.push(self.step_ro(st).unwrap_or(json!({"error": "script step"})));
+                }
+                Value::Array(out)
+            }
+
+            fn user_loop(&self, spec: &Value) -> Value {
+                let kind = spec["kind"].as_str().unwrap();
+                let at = us(&spec["at"]);
+                let mut yields = vec![];
+                let mut sobs = Value::Null;
+                let mut n = 0usize;
+                self.with_handle(&spec["node"], |node| {
+                    macro_rules! drive {
+                        ($it:expr, $lst:expr) => {{
+                            let mut it = $it;
+                            loop {
+                                if n == at { sobs = self.run_script(&spec["script"]); }
+                                match it.next() {
+                                    None => break,
+                                    Some(e) => {
+                                        let (u, v, x) = (*e.0.key(), *e.1.key(), e.2);
+                                        let ok = if $lst == "in" { self.exists_now("in", v, u, x) } else { self.exists_now($lst, u, v, x) };
+                                        yields.push(json!([u, v, x, ok]));
+                                        n += 1;
+                                        if n > 24 { panic!("edge loop does not end"); }
+                                    }
+                                }
+                            }
+                        }};
+                    }
+                    sel!($kind, {
+                        match kind {
+                            "iter_out" => drive!(node.iter_out(), "out"),
+                            "iter_in" => drive!(node.iter_in(), "in"),
+                            "into_iter" => drive!(node.into_iter(), "out"),
+                            x => panic!("loop kind {}", x),
+                        }
+                    }, {
+                        match kind {
+                            "iter" => drive!(node.iter(), "adj"),
+                            "into_iter" => drive!(node.into_iter(), "adj"),
+                            x => panic!("loop kind {}", x),
+                        }
+                    });
+                });
+                json!({"yields": yields, "script": sobs})
+            }
+
             fn dump_lite(&self) -> Value {
                 let mut out = vec![];
                 for n in &self.nodes {
@@ -114,19 +182,43 @@ macro_rules! flavour_impl {
             fn search(&self, spec: &Value) -> Value {
                 let table = FilterTable::parse(&spec["filter"]);
                 let log: RefCell<Vec<Value>> = RefCell::new(vec![]);
+                let count = std::cell::Cell::new(0usize);
+                let script_obs: RefCell<Value> = RefCell::new(Value::Null);
                 let method = spec["method"].as_str().unwrap_or("none");
                 let mode = spec["mode"].as_str().unwrap();
                 let target: Option<K> = if spec["target"].is_null() { None } else { Some(*self.nodes[us(&spec["target"])].key()) };
                 let transpose = spec["transpose"].as_bool().unwrap_or(false);
                 let res: Value;
                 {
+                    let script = spec.get("script").filter(|s| !s.is_null());
+                    let lst = sel!($kind, { if transpose { "in" } else { "out" } }, { "adj" });
+                    let before = |e: &Edge<K, N, E>| -> Option<bool> {
+                        match script {
+                            None => None,
+                            Some(sc) => {
+                                let ok = self.exists_now(lst, *e.0.key(), *e.1.key(), e.2);
+                                if count.get() == us(&sc["at"]) {
+                                    *script_obs.borrow_mut() = self.run_script(&sc["steps"]);
+                                }
+                                count.set(count.get() + 1);
+                                Some(ok)
+                            }
+                        }
+                    };
                     let mut filt = |e: &Edge<K, N, E>| -> bool {
+                        let ok = before(e);
                         let r = table.lookup(*e.0.key(), *e.1.key(), e.2);
-                        log.borrow_mut().push(json!([*e.0.key(), *e.1.key(), e.2, r]));
+                        match ok {
+                            Some(ok) => log.borrow_mut().push(json!([*e.0.key(), *e.1.key(), e.2, r, ok])),
+                            None => log.borrow_mut().push(json!([*e.0.key(), *e.1.key(), e.2, r])),
+                        }
                         r
                     };
                     let mut fe = |e: &Edge<K, N, E>| {
-                        log.borrow_mut().push(edge_json(e));
+                        match before(e) {
+                            Some(ok) => log.borrow_mut().push(json!([*e.0.key(), *e.1.key(), e.2, ok])),
+                            None => log.borrow_mut().push(edge_json(e)),
+                        }
                     };
                     macro_rules! finish {
                         ($s:ident) => {{
@@ -156,24 +248,52 @@ macro_rules! flavour_impl {
                         x => panic!("alg {}", x),
                     });
                 }
-                json!({"result": res, "calls": log.into_inner()})
+                if spec.get("script").map(|s| !s.is_null()).unwrap_or(false) {
+                    json!({"result": res, "calls": log.into_inner(), "script": script_obs.into_inner()})
+                } else {
+                    json!({"result": res, "calls": log.into_inner()})
+                }
             }
 
             fn order(&self, spec: &Value) -> Value {
                 let table = FilterTable::parse(&spec["filter"]);
                 let log: RefCell<Vec<Value>> = RefCell::new(vec![]);
+                let count = std::cell::Cell::new(0usize);
+                let script_obs: RefCell<Value> = RefCell::new(Value::Null);
                 let method = spec["method"].as_str().unwrap_or("none");
                 let pre = spec["kind"].as_str().unwrap() == "pre";
                 let transpose = spec["transpose"].as_bool().unwrap_or(false);
                 let res: Value;
                 {
+                    let script = spec.get("script").filter(|s| !s.is_null());
+                    let lst = sel!($kind, { if transpose { "in" } else { "out" } }, { "adj" });
+                    let before = |e: &Edge<K, N, E>| -> Option<bool> {
+                        match script {
+                            None => None,
+                            Some(sc) => {
+                                let ok = self.exists_now(lst, *e.0.key(), *e.1.key(), e.2);
+                                if count.get() == us(&sc["at"]) {
+                                    *script_obs.borrow_mut() = self.run_script(&sc["steps"]);
+                                }
+                                count.set(count.get() + 1);
+                                Some(ok)
+                            }
+                        }
+                    };
                     let mut filt = |e: &Edge<K, N, E>| -> bool {
+                        let ok = before(e);
                         let r = table.lookup(*e.0.key(), *e.1.key(), e.2);
-                        log.borrow_mut().push(json!([*e.0.key(), *e.1.key(), e.2, r]));
+                        match ok {
+                            Some(ok) => log.borrow_mut().push(json!([*e.0.key(), *e.1.key(), e.2, r, ok])),
+                            None => log.borrow_mut().push(json!([*e.0.key(), *e.1.key(), e.2, r])),
+                        }
                         r
                     };
                     let mut fe = |e: &Edge<K, N, E>| {
-                        log.borrow_mut().push(edge_json(e));
+                        match before(e) {
+                            Some(ok) => log.borrow_mut().push(json!([*e.0.key(), *e.1.key(), e.2, ok])),
+                            None => log.borrow_mut().push(edge_json(e)),
+                        }
                     };
                     res = self.with_handle(&spec["root"], |root| {
                         let mut s = sel!($kind, {
@@ -195,12 +315,16 @@ macro_rules! flavour_impl {
                         }
                     });
                 }
-                json!({"result": res, "calls": log.into_inner()})
+                if spec.get("script").map(|s| !s.is_null()).unwrap_or(false) {
+                    json!({"result": res, "calls": log.into_inner(), "script": script_obs.into_inner()})
+                } else {
+                    json!({"result": res, "calls": log.into_inner()})
+                }
             }
 
-            fn step(&mut self, st: &Value) -> Value {
+            fn step_ro(&self, st: &Value) -> Option<Value> {
                 let a = st.as_array().unwrap();
-                match a[0].as_str().unwrap() {
+                Some(match a[0].as_str().unwrap() {
                     "connect" => {
                         let e = i6(&a[3]);
                         self.with_handle(&a[1], |u| self.with_handle(&a[2], |v| u.connect(v, e)));
@@ -231,8 +355,25 @@ macro_rules! flavour_impl {
                             self.dump()
                         }
                     }
+                    "query" => self.dump_nodes(&[&self.nodes[us(&a[1])]])[0].clone(),
+                    "clone_drop" => {
+                        let c = self.nodes[us(&a[1])].clone();
+                        drop(c);
+                        json!("ok")
+                    }
                     "search" => self.search(&a[1]),
                     "order" => self.order(&a[1]),
+                    "loop" => self.user_loop(&a[1]),
+                    _ => return None,
+                })
+            }
+
+            fn step(&mut self, st: &Value) -> Value {
+                if let Some(v) = self.step_ro(st) {
+                    return v;
+                }
+                let a = st.as_array().unwrap();
+                match a[0].as_str().unwrap() {
                     x => json!({"error": format!("unknown step {}", x)}),
                 }
             }
